@@ -110,7 +110,8 @@ class C17(Check):
             for kind in KINDS:
                 cases.append({'f': P, 'n': 3, 'nv': 1, 'cols': [[1, 0, 2], [0, 0, 0]], 'times': [0, 1, 2], 'shape': 'big-values', 'kind': kind, 'perm': 0.5, 'text': full, 'full': 1})
         # a sampling period that is zero or negative
-        for per in ([0, 's', 0.1], [-1, 's', 0.1], [0.0, 'ms', 0.1]):
+        # ... or not a finite number (inf, a bool), or a tolerance that is not a number
+        for per in ([0, 's', 0.1], [-1, 's', 0.1], [0.0, 'ms', 0.1], [float('inf'), 's', 0.1], [True, 's', 0.1], [1, 's', float('nan')], [float('nan'), 's', 0.1]):
             for kind in ('discrete-offline', 'discrete-online'):
                 cases.append({'f': P, 'n': 3, 'nv': 1, 'cols': fml.gen_trace(rng, 2, 3), 'times': [0, 1, 2], 'shape': 'huge-bound', 'kind': kind, 'perm': 0.5, 'text': 'once[0,2](xa >= 1)', 'period': per})
         # assertion heads that end with a dot (one Identifier token): declared under one name, looked up under another
